@@ -96,7 +96,7 @@ def monitor_cases(rng, tier, stats):
         box = {}
         label = "%s/d%d" % (mode, d)
 
-        def impl(N=N, mode=mode, tol=tol, seed=seed, box=box, d=d):
+        def impl(N=N, mode=mode, tol=tol, seed=seed, box=box, d=d, c=c):
             tn.manual_seed(seed); np.random.seed(seed % (2 ** 32))
             z = torchtt.randn(N, [1] + [rng.randint(1, 3)] * (d - 1) + [1])
             y = (z * z + 1.0).round(1e-13)
@@ -104,8 +104,13 @@ def monitor_cases(rng, tier, stats):
             if mode == "truediv":
                 q = x / y; num = x
             elif mode == "rtruediv":
-                s = rng.choice([1.0, 2.5, -3.0])
-                q = s / y; num = torchtt.ones(N) * s
+                # every admissible scalar form; values that single precision cannot represent exactly are the rule, not the exception
+                sv = rng.choice([1.0, 2.5, -3.0, 0.1, -7.3, 1.0 / 3.0, 2])
+                form = rng.choice(["py", "py", "np", "t0", "t1"])
+                if c % 2 == 0:
+                    sv, form = [0.1, -7.3, 1.0 / 3.0][(c // 14) % 3], "py"        # deterministic member: a python float that float32 cannot hold
+                s = sv if form == "py" else np.float64(sv) if form == "np" else tn.tensor(float(sv), dtype=tn.float64) if form == "t0" else tn.tensor([float(sv)], dtype=tn.float64)
+                q = s / y; num = torchtt.ones(N) * float(sv)
             else:
                 kw = {"eps": tol, "nswp": 50}
                 if mode == "fn-prec":
